@@ -351,9 +351,9 @@ pub fn run_c14(ctx: &mut Ctx) {
 }
 
 pub fn run_c15(ctx: &mut Ctx) {
-    let n = ctx.count(300_000, 3_000_000);
+    let n = ctx.count(300_000, 10_000_000);
     ctx.run("set-get-sequences", n, c15_seq_strategy(), c15_seq_check);
-    let n = ctx.count(400_000, 4_000_000);
+    let n = ctx.count(400_000, 12_000_000);
     ctx.run("stream-eq-pairs", n, c15_pair_strategy(), c15_pair_check);
     for d in 0..=18 {
         ctx.required_classes.push(format!("diff={}", d));
